@@ -2,7 +2,7 @@
    The extracted OCaml driver and the in-Coq replays both call only this. *)
 From Coq Require Import List ZArith NArith Bool.
 From AG Require Import Base.Val Base.Sort Str.MetaVar Str.AnB Str.Substring
-  Rewrite.Indent Rewrite.Template Tree.Tree Tree.Wf Match.MatchNode Rule.Rule Rule.Traversal Rule.Eval Rule.Sem.
+  Rewrite.Indent Rewrite.Template Tree.Tree Tree.Wf Match.MatchNode Match.Prefilter Rule.Rule Rule.Kinds Rule.Traversal Rule.Scan Rule.Eval Rule.Sem.
 Import ListNotations.
 Local Open Scope Z_scope.
 
@@ -170,6 +170,34 @@ Definition case_wf (v : val) : val :=
   let root := g_tree (vdepth v) (gNth 0 v) in
   VL [vB (wfb root); vB (nonzero_widthb root)].
 
+(* 35: same input as 20 -> potential kinds of the rule: () = any kind | ((sorted kinds)) *)
+Fixpoint insert_n (x : N) (l : list N) : list N :=
+  match l with
+  | [] => [x]
+  | y :: r => if N.ltb x y then x :: l else if N.eqb x y then l else y :: insert_n x r
+  end.
+Definition sort_n (l : list N) : list N := fold_right insert_n [] l.
+Definition case_kinds (v : val) : val :=
+  let d := vdepth v in
+  let root := g_tree d (gNth 1 v) in
+  let c := {| c_src := gS (gNth 0 v); c_root := root;
+              c_utils := gList (fun p => (gS (gNth 0 p), g_rule d (gNth 1 p))) (gNth 3 v) |} in
+  vOpt (fun ks => VL (map vN (sort_n ks))) (core_kinds c (g_rule d (gNth 2 v))).
+
+(* 36: (src tree ((id has_fix (opt kinds) (hit ids)) ...)) -> (((rule id) (node ids)) ... sorted by rule, (unused comment ids)) *)
+Definition case_scan (v : val) : val :=
+  let src := gS (gNth 0 v) in
+  let root := g_tree (vdepth v) (gNth 1 v) in
+  let rules := gList (fun r => {| sr_id := gS (gNth 0 r); sr_fix := gB (gNth 1 r);
+                                  sr_kinds := gOpt (gList gN) (gNth 2 r); sr_hits := gList gN (gNth 3 r) |}) (gNth 2 v) in
+  let res := scan src root rules in
+  let ids := sort_dedup (map sr_id rules) in
+  VL [ VL (flat_map (fun rid => match found_of rid (res_found res) with
+                                | [] => []
+                                | l => [VL [VS rid; VL (map vN l)]]
+                                end) ids);
+       VL (map vN (res_unused res)) ].
+
 Definition run_case (fid : Z) (v : val) : val :=
   match fid with
   | 1 => v_metavar (extract_meta_var (gN (gNth 0 v)) (gS (gNth 1 v)))
@@ -197,6 +225,10 @@ Definition run_case (fid : Z) (v : val) : val :=
   | 32 => case_visit v
   | 33 => case_find_all v
   | 34 => case_wf v
+  | 35 => case_kinds v
+  | 36 => case_scan v
+  (* 37: pattern -> Pattern::fixed_string *)
+  | 37 => VS (fixed_string (g_pattern (vdepth v) (gNth 0 v)))
   | 100 => case_rule_sem v
   | _ => vErr []
   end.
